@@ -78,6 +78,20 @@ class C17(vlib.Check):
                 self.count("dbfold-to-kind")
                 yield {"t": "dbfoldkind", "kind": kind, "bits": bits, "to": rng.choice([k for k in KINDS if k != kind]),
                        "fps": [gen_fpin(rng, kind, bits, 5, []) for _ in range(2)], "fold": rng.choice([2, 4, 8]) if bits <= 1024 else 2 ** 30}
+        # one add_fingerprints call with fingerprints of several kinds, in every order of kinds, into a database of each kind:
+        # every row is the fingerprint cast to the database's kind, whichever kind the batch starts with
+        for _ in range(40 if self.tier == "quick" else 600):
+            bits = rng.choice([64, 1024, 2 ** 32])
+            dbkind = rng.choice(KINDS)
+            kinds = [rng.choice(["bit", "count", "count", "float"]) for _ in range(rng.randint(2, 5))]
+            fps = [gen_fp(rng, k, bits, level=5, maxn=6, style="sparse") for k in kinds]
+            for f in fps:
+                if f["kind"] == "float":      # values every kind can hold: whole numbers >= 1
+                    f["cnt"] = [[i, str(max(1, int(Fraction(v))))] for i, v in f["cnt"]]
+                if f["kind"] != "bit":
+                    f["cnt"] = [[i, v if int(Fraction(v)) <= 255 else "255"] for i, v in f["cnt"]]
+            self.count("mixed-batch:first-" + kinds[0])
+            yield {"t": "mixedadd", "dbkind": dbkind, "fps": fps, "split": rng.random() < 0.3}
         from harness import molgen as MG
         refs = MG.all_refs()
         for _ in range(30 if self.tier == "quick" else 500):
@@ -112,7 +126,7 @@ class C17(vlib.Check):
 
     def impl(self, case):
         t = case["t"]
-        if t in ("vecview", "dbfoldkind"):
+        if t in ("vecview", "dbfoldkind", "mixedadd"):
             return {"res": {"ok": "see prop"}}
         if t == "fprinter":
             return {"res": attempt(lambda: self._pair(case))}
@@ -134,7 +148,7 @@ class C17(vlib.Check):
 
     def model_ops(self, case):
         t = case["t"]
-        if t in ("vecview", "dbfoldkind"):
+        if t in ("vecview", "dbfoldkind", "mixedadd"):
             return [{"op": "fpr.hash", "words": []}]
         if t == "fprinter":
             from harness import molgen as MG
@@ -152,7 +166,7 @@ class C17(vlib.Check):
 
     def model_answer(self, case, answers):
         t = case["t"]
-        if t in ("vecview", "dbfoldkind"):
+        if t in ("vecview", "dbfoldkind", "mixedadd"):
             return {"res": {"ok": "see prop"}}
         if t == "fprinter":
             if "ok" not in answers[0]:
@@ -201,6 +215,28 @@ class C17(vlib.Check):
 
     def prop(self, case):
         t = case["t"]
+        if t == "mixedadd":
+            db = FingerprintDatabase(fp_type=CLS[case["dbkind"]], level=5)
+            objs = [make_fp(f) for f in case["fps"]]
+            try:
+                if case["split"]:
+                    db.add_fingerprints(objs[:1])
+                    db.add_fingerprints(objs[1:])
+                else:
+                    db.add_fingerprints(objs)
+            except Exception as e:  # noqa: BLE001
+                return {"key": "mixed-batch-raises:" + type(e).__name__, "what": "adding a batch of kinds %s to a %s database raised %r" % ([f["kind"] for f in case["fps"]], case["dbkind"], e)}
+            for i, f in enumerate(case["fps"]):
+                want = {j: Fraction(1) for j in f["idx"]} if (f["kind"] == "bit" or case["dbkind"] == "bit") else {j: Fraction(v) for j, v in f["cnt"]}
+                row = db.array[i].tocsr()
+                got = {int(c): Fraction(float(x)) for c, x in zip(row.indices.tolist(), row.data.tolist()) if x != 0}
+                back = db[i]
+                gotfp = {int(j): Fraction(1) for j in back.indices.tolist()} if case["dbkind"] == "bit" else {int(j): Fraction(float(v)) for j, v in back.counts.items()}
+                if got != want or gotfp != want:
+                    return {"key": "mixed-batch-values:first-%s:db-%s" % (case["fps"][0]["kind"], case["dbkind"]),
+                            "what": "row %d (a %s fingerprint added in a batch of kinds %s to a %s database) stores %s, the fingerprint holds %s" % (
+                                i, f["kind"], [x["kind"] for x in case["fps"]], case["dbkind"], sorted(got.items())[:4], sorted(want.items())[:4])}
+            return None
         if t == "vecview":
             import numpy as np
             spec = case["fp"]
@@ -307,7 +343,7 @@ class C17(vlib.Check):
     def nontrivial(self, case, a_impl):
         if case["t"] == "fprinter":
             return vlib.canon(case) if a_impl.get("res", {}).get("ok") else None
-        if case["t"] in ("vecview", "dbfoldkind"):
+        if case["t"] in ("vecview", "dbfoldkind", "mixedadd"):
             return vlib.canon(case)
         src = case.get("fp") or case.get("a") or (case["fps"][0]["fp"] if case.get("fps") else None)
         if src and src["idx"]:
